@@ -269,6 +269,42 @@ func (mi *MutantInjector) mutantsOf(n *Node, b *blockchain.Block, gen *Validator
 	if h.MaxHeightPrevoted > 0 {
 		add("maxHeightPrevoted-1", gen, func(c *blockchain.Block) { c.Header.MaxHeightPrevoted = h.MaxHeightPrevoted - 1 })
 	}
+	// one header field altered while the original signature stays: the signature covers every header field, so a
+	// relaying peer without the generator's key must not be able to change any of them (values chosen so that no other
+	// rule objects where that is possible)
+	keep := func(name string, f func(c *blockchain.Block)) { add("signature-kept/"+name, nil, f) }
+	keep("timestamp+1-same-slot", func(c *blockchain.Block) {
+		if n.Exec.GetSlotNumber(h.Timestamp+1) == n.Exec.GetSlotNumber(h.Timestamp) {
+			c.Header.Timestamp = h.Timestamp + 1
+		} else {
+			c.Header.Timestamp = h.Timestamp - 1
+		}
+	})
+	keep("maxHeightGenerated", func(c *blockchain.Block) {
+		// another value below the height that contradicts nothing the generator did on this chain
+		g := h.MaxHeightGenerated + 1
+		if g >= h.Height {
+			g = h.MaxHeightGenerated - 1
+		}
+		if tb := mi.M.Tree.ByID[string(tip.ID)]; tb != nil {
+			if last, ok := tb.BFT.LastHeaderOf(string(h.GeneratorAddress)); ok {
+				for _, cand := range []uint32{last.Height, last.Height + 1, h.Height - 1} {
+					ch := refmodel.BFTHeader{Height: h.Height, Generator: string(h.GeneratorAddress), MaxHeightGenerated: cand, MaxHeightPrevoted: h.MaxHeightPrevoted}
+					if cand != h.MaxHeightGenerated && cand < h.Height && !refmodel.Contradicting(last, ch) {
+						g = cand
+						break
+					}
+				}
+			}
+		}
+		c.Header.MaxHeightGenerated = g
+	})
+	keep("impliesMaxPrevotes", func(c *blockchain.Block) { c.Header.ImpliesMaxPrevotes = !h.ImpliesMaxPrevotes })
+	keep("eventRoot", func(c *blockchain.Block) { c.Header.EventRoot = flip(h.EventRoot) })
+	keep("stateRoot", func(c *blockchain.Block) { c.Header.StateRoot = flip(h.StateRoot) })
+	keep("validatorsHash", func(c *blockchain.Block) { c.Header.ValidatorsHash = flip(h.ValidatorsHash) })
+	keep("maxHeightPrevoted", func(c *blockchain.Block) { c.Header.MaxHeightPrevoted = h.MaxHeightPrevoted + 1 })
+	keep("aggregateCommit", func(c *blockchain.Block) { c.Header.AggregateCommit.Height = h.AggregateCommit.Height + 1 })
 	// maxHeightGenerated chosen so that the header contradicts the generator's most recent header on this chain
 	if tb := mi.M.Tree.ByID[string(tip.ID)]; tb != nil {
 		if last, ok := tb.BFT.LastHeaderOf(string(h.GeneratorAddress)); ok {
